@@ -129,5 +129,18 @@ EvalVP(t, env, rules) ==
             LET xs == [i \in DOMAIN t.ops |-> EvalVP(t.ops[i].t, env, rules)]
             IN  IF \E i \in DOMAIN xs : IsE(xs[i]) THEN xs[CHOOSE i \in DOMAIN xs : IsE(xs[i])]
                 ELSE Attach(Core([t EXCEPT !.ops = [i \in DOMAIN t.ops |-> [t |-> V_(Tmp(i)), a |-> t.ops[i].a]]], xs, env), xs, "combine", rules)
+      [] t.k = "an" ->
+            \* dataset-level analytic invocation: every datapoint of a partition gets the rule over the values of the whole partition
+            \* (not of its frame); inside calc an analytic expression is a clause like any other (viral attributes unchanged)
+            LET x == EvalVP(t.x, env, rules)
+                core == Core([t EXCEPT !.x = V_(Tmp(1))], <<x>>, env)
+                part == Rng(t.part)
+                vcs == { c \in x.comps : c.r = "V" }
+                src(r) == CHOOSE q \in x.rows : Rst(q, IdsOf(x)) = Rst(r, IdsOf(x))
+                grp(r) == { q \in x.rows : Rst(q, part) = Rst(src(r), part) }
+            IN  IF IsE(x) THEN x ELSE IF IsE(core) \/ ~IsDS(core) THEN core
+                ELSE [comps |-> core.comps \cup vcs,
+                      rows |-> { [n \in AllNames(core) \cup { c.n : c \in vcs } |->
+                                    IF n \in AllNames(core) THEN r[n] ELSE GroupV(rules[n], grp(r), n, (CHOOSE c \in vcs : c.n = n).t)] : r \in core.rows }]
       [] OTHER -> EvalD(t, env)
 =============================================================================
